@@ -136,6 +136,58 @@ def run(rep, tier="quick", replay=None, evidence_dir=None):
     rep.ob("C07.R3", "encode (Enum, Enum) consults the schema's symbols", looks,
            "validation accepts an index outside the symbols when the enum declares a default; writing the index unchecked produces a datum no reader accepts", enc.loc())
 
+    # the bound test: `index >= symbols.len()` selects the default, `index < len` writes the index (no off-by-one)
+    polarity = None
+    for bi in reg:
+        for st in enc.blocks[bi]["stmts"]:
+            if st["s"] == "assign" and st["rv"]["r"] == "bin" and st["rv"]["op"] in ("Ge", "Gt", "Lt", "Le"):
+                a, c = st["rv"]["a"], st["rv"]["b"]
+                def is_len(o):
+                    cr = enc.call_result_of(o) if o.get("k") in ("copy", "move") else None
+                    return bool(cr and callee_names(cr[1]["func"])[0].endswith("::len"))
+                def is_index(o):
+                    if o.get("k") not in ("copy", "move"):
+                        return False
+                    l0 = op_local(o)
+                    seen = 0
+                    while l0 is not None and seen < 4:
+                        seen += 1
+                        sd = enc.single_def(l0)
+                        if sd and sd[2] == "assign" and sd[3]["r"] == "cast":
+                            l0 = op_local(sd[3]["o"])
+                            continue
+                        if sd and sd[2] == "assign" and sd[3]["r"] == "use" and sd[3]["o"].get("k") in ("copy", "move"):
+                            return "as Enum" in enc.pldesc(sd[3]["o"]["pl"])
+                        break
+                    return False
+                op = st["rv"]["op"]
+                if is_index(a) and is_len(c):
+                    polarity = op in ("Ge", "Lt")
+                elif is_len(a) and is_index(c):
+                    polarity = op in ("Le", "Gt")
+    rep.ob("C07.R3", "encode (Enum, Enum): the index is compared with symbols.len() as `index >= len` / `index < len`", polarity is True,
+           "off by one: an index equal to the number of symbols is outside the symbols but would be written as it is" if polarity is False else "no comparison of the index with symbols.len() found", enc.loc())
+    # ---------------- R4: a bare array / map is accepted for a union only after it resolved against that branch
+    rep.rule("C07.R4", "union branch lookup re-checks array and map values against the branch before accepting them")
+    fs = prog.bodies.get("schema::union::UnionSchema::find_schema_with_known_schemata")
+    if fs is None:
+        rep.anchor_error("C07.R4", "find_schema_with_known_schemata")
+    else:
+        kinds = set()
+        for cb in prog.with_closures(fs):
+            has_resolve = bool(calls_named(cb, "types::Value::resolve_internal"))
+            if not has_resolve:
+                continue
+            for bi, t in cb.calls():
+                nm = callee_names(t["func"])
+                if nm and nm[0] in ("std::cmp::PartialEq::eq", "std::cmp::PartialEq::ne"):
+                    for a in t["args"]:
+                        v = cb.op_const(a).get("variant")
+                        if v and v[0] == "schema::SchemaKind":
+                            kinds.add(v[1])
+        rep.ob("C07.R4", "find_schema_with_known_schemata resolves the value against the branch for both Map and Array branches", {"Map", "Array"} <= kinds,
+               "kinds re-checked: %s. An array (or map) whose items do not fit the branch is accepted by validation, and the writers emit bytes for it before the item fails (or silently corrupt ones)" % sorted(kinds), fs.loc())
+
     rep.floor("C07", "obligations", len(rep.obligations), 100)
     rep.not_decided = ["that the bytes decode to the value's canonical representation for concrete values (union branch chosen, widened number)", "(Map, Record) - see known findings"]
     return common.finish(rep, level="other",
